@@ -66,13 +66,31 @@ func (m *mutex) Unlock() error {
 }
 
 func (c *cluster) Mutex(name string) (Mutex, error) {
+	// NOTE: All users of the same name in this member must share one mutex:
+	// the etcd mutex is owned by the session (one per member), so a second
+	// Lock through the same session succeeds at once, and only the
+	// process-local lock keeps the goroutines of this member apart.
+	c.mutexesMutex.Lock()
+	defer c.mutexesMutex.Unlock()
+
+	if m, exists := c.mutexes[name]; exists {
+		return m, nil
+	}
+
 	session, err := c.getSession()
 	if err != nil {
 		return nil, err
 	}
 
-	return &mutex{
+	m := &mutex{
 		m:       concurrency.NewMutex(session, name),
 		timeout: c.requestTimeout,
-	}, nil
+	}
+
+	if c.mutexes == nil {
+		c.mutexes = make(map[string]*mutex)
+	}
+	c.mutexes[name] = m
+
+	return m, nil
 }
